@@ -326,8 +326,15 @@ def run_unit(res, unit, tier):
         return
     _, hname, bound, pts, k, nshards = unit
     flt = write_points() if pts == "write" else None
-    make_bodies, expected, ops = make_harness(hname)
-    x0 = run_schedule(make_bodies, [], flt, pristine=True)
+    try:
+        make_bodies, expected, ops = make_harness(hname)
+        x0 = run_schedule(make_bodies, [], flt, pristine=True)
+    except Divergence:
+        raise
+    except BaseException as e:   # the shared world cannot even be built / run sequentially: C08's H part reports why
+        res.violation("S:world-build:%s" % type(e).__name__, "the harness world could not be built or run: %r" % (str(e)[-300:],),
+                      {"kind": "H", "ops": []}, observed=str(e)[-300:])
+        return
     n = len(x0.points)
     lo, hi = (n * k) // nshards, (n * (k + 1)) // nshards
     stats = {}
@@ -373,8 +380,13 @@ def _last_dev(choices):
 def determinism(res):
     """Replay one schedule with a preemption twice: identical point sequences and observations."""
     for hname in HARNESSES:
-        make_bodies, expected, ops = make_harness(hname)
-        x0 = run_schedule(make_bodies, [], write_points(), pristine=True)
+        try:
+            make_bodies, expected, ops = make_harness(hname)
+            x0 = run_schedule(make_bodies, [], write_points(), pristine=True)
+        except Divergence:
+            raise
+        except BaseException:
+            return   # reported by the exploration units
         first_len = next(i for i, t in enumerate(x0.trace) if t[1] == "<end>")   # thread 0 ends here in the default schedule
         mid = [0] * (first_len // 2) + [1]                                           # preempt thread 0 half-way
         a = run_schedule(make_bodies, mid, write_points(), pristine=True)
